@@ -150,6 +150,7 @@ fn model_buckets(ctx: &mut Ctx, hm: &HermesModel) {
                         }
                     }
                     ctx.bucket_if(m[0].entries.windows(2).any(|w| w[0].0 != w[1].0), "function-map-with-several-lines");
+                    ctx.bucket_if(m[0].entries.iter().any(|e| e.0 >= 4096), "function-map-entry-beyond-line-4096");
                     ctx.bucket_if(m[0].entries.iter().any(|e| e.2 as usize >= m[0].names.len()), "name-index-out-of-range");
                 } else {
                     broken += 1;
@@ -165,7 +166,7 @@ pub fn run(ctx: &mut Ctx) {
     crate::reference::metro::self_check(&mut srng);
     crate::reference::vlq::self_check(&mut srng, 2000);
 
-    let total = ctx.size(100_000, 4_000_000);
+    let total = ctx.size(800_000, 6_000_000);
     for n in ctx.cases("maps", total) {
         let mut rng = ctx.begin("maps", n);
         ctx.eval();
